@@ -475,8 +475,12 @@ class Repo:
         self.overlay = overlay or {}
         self.modules = {}
         self.templates = {}
+        from . import simplify
         if base is not None:
             # re-use the parsed modules of `base` for every file that is not overlaid (self-test)
+            self.mutable_attrs = simplify.Mutability().update(base.mutable_attrs).update(
+                simplify.mutable_attrs_of(self.overlay[r] for r in self.overlay if r.endswith('.py')))
+            simplify.MUTABLE_ATTRS = self.mutable_attrs
             for rel, m in base.modules.items():
                 self.modules[rel] = Module(rel, self.overlay[rel]) if rel in self.overlay else m
             for rel, t in base.templates.items():
@@ -491,6 +495,7 @@ class Repo:
         base = os.path.join(self.root, 'mapproxy')
         if not os.path.isdir(base):
             raise AnchorMissing('no mapproxy package under %s' % self.root)
+        files = []
         for dp, dn, fn in os.walk(base):
             relp = os.path.relpath(dp, self.root)
             if relp == 'mapproxy/test' or relp.startswith('mapproxy/test/'):
@@ -500,10 +505,16 @@ class Repo:
             for f in sorted(fn):
                 p = os.path.join(dp, f)
                 rel = os.path.relpath(p, self.root)
-                if f.endswith('.py'):
-                    self.modules[rel] = Module(rel, self._read(rel, p))
-                elif '/templates/' in rel and f.endswith(('.xml', '.html', '.kml')):
-                    self.templates[rel] = self._read(rel, p)
+                if f.endswith('.py') or ('/templates/' in rel and f.endswith(('.xml', '.html', '.kml'))):
+                    files.append((rel, self._read(rel, p)))
+        # which attributes are ever assigned outside of a constructor (needed by the alias normal form before the modules are built)
+        self.mutable_attrs = simplify.mutable_attrs_of(src for rel, src in files if rel.endswith('.py'))
+        simplify.MUTABLE_ATTRS = self.mutable_attrs
+        for rel, src in files:
+            if rel.endswith('.py'):
+                self.modules[rel] = Module(rel, src)
+            else:
+                self.templates[rel] = src
         self._normalise()
         self._noreturn()
         self.bymod = {m.modname: m for m in self.modules.values()}
